@@ -12,7 +12,7 @@ use std::panic::{catch_unwind, AssertUnwindSafe};
 use std::sync::{Arc, Barrier};
 
 /// programs whose diagnostics carry "was found in ..." notes, struct lookups, deprecations...
-const SPECIAL: [&str; 10] = [
+const SPECIAL: [&str; 13] = [
     "os.exit()\nprint(package.searchpath)\n",
     "print(bit32.band(1, 2), table.pack(1), utf8.char(65))\n",
     "print(table.unpack({}), math.tointeger(1), string.pack)\n",
@@ -23,6 +23,9 @@ const SPECIAL: [&str; 10] = [
     "local out = {}\nfor k, v in pairs(t) do out[k] = v end\nfor i, v in ipairs(t) do out[i] = v end\n",
     "x = 1\ny = 2\nprint(x, y, z, w)\nlocal a = 1\nlocal a = 2\n",
     "print(game, workspace, script, Instance.new(\"Part\"), task.wait())\n",
+    "local table = { insert = print }\nlocal q = {}\ntable.insert(q, 1)\nlocal s = {}\nrawset(s, 1, 2)\n",
+    "local log = {}\ntable.insert(log, 1)\nlocal s = {}\nrawset(s, 1, 2)\n",
+    "local f\nf = function(a) end\nf = function(a, b) end\nf = function() end\nf(1, 2, 3)\n",
 ];
 
 fn fnv(s: &str) -> u64 {
@@ -75,7 +78,8 @@ pub fn generate(seed: u64, n: usize, thorough: bool) -> Cases {
         for _ in 0..k {
             files.push(match r.below(10) {
                 0..=2 => (*r.pick(&SPECIAL)).to_string(),
-                3..=6 if !fx.is_empty() => r.pick(&fx).clone(),
+                3..=5 if !fx.is_empty() => r.pick(&fx).clone(),
+                6 => crate::genlua::gen_unused_program(&mut r).0,
                 _ => gen_program(&mut r).0,
             });
         }
